@@ -345,13 +345,13 @@ func (r rrule) httpRule() *annotations.HttpRule {
 // field paths usable in templates: dotted path -> (id, conversion kind)
 type fieldInfo struct {
 	id   int
-	kind string // S: any text converts, I: int32 text, X: nothing converts
+	kind string // S: any text converts, I: int32 text, U: uint32 text, L: int64 text, X: nothing converts
 }
 
 var routeFields = map[string]fieldInfo{
 	"name": {1, "S"}, "other_name": {2, "S"}, "otherName": {2, "S"}, "nested.s": {3, "S"}, "nested.child.s": {4, "S"},
 	"i32": {5, "I"}, "nested": {6, "X"}, "rs": {7, "S"}, "nested.child.child.s": {8, "S"}, "nested.n": {9, "I"},
-	"oa": {10, "S"}, "nested.tags": {11, "S"}, "u32": {12, "U"}, "f32": {13, "U"},
+	"oa": {10, "S"}, "nested.tags": {11, "S"}, "u32": {12, "U"}, "f32": {13, "U"}, "i64": {14, "L"}, "s64": {15, "L"},
 }
 
 func fieldTable() string {
@@ -559,6 +559,8 @@ func implRoute(t *larking.VerifTrie, verb, path string) (rr routeResult) {
 				text = v
 			case int32:
 				text = strconv.Itoa(int(v))
+			case int64:
+				text = strconv.FormatInt(v, 10)
 			case uint32:
 				text = strconv.FormatUint(uint64(v), 10)
 			default:
